@@ -541,11 +541,15 @@ class DiHypergraph:
         else:
             raise XGIError("Directed edge must be a list or tuple!")
 
-        uid = next(self._edge_uid) if idx is None else idx
-
         if idx in self._edge.keys():  # check that uid is not present yet
             warn(f"uid {idx} already exists, cannot add edge {members}")
             return
+
+        tail, head = list(tail), list(head)
+        if None in tail or None in head:
+            raise XGIError("None cannot be a node or edge")
+
+        uid = next(self._edge_uid) if idx is None else idx
 
         self._edge[uid] = {"in": set(), "out": set()}
 
@@ -683,9 +687,12 @@ class DiHypergraph:
                     raise XGIError("Directed edge must be a list or tuple!")
 
                 try:
-                    self._edge[idx] = {"in": set(tail), "out": set(head)}
+                    tail_set, head_set = set(tail), set(head)
                 except TypeError as e:
                     raise XGIError("Invalid ebunch format") from e
+                if None in tail_set or None in head_set:
+                    raise XGIError("None cannot be a node or edge")
+                self._edge[idx] = {"in": tail_set, "out": head_set}
 
                 for n in tail:
                     if n not in self._node:
@@ -747,9 +754,12 @@ class DiHypergraph:
                 try:
                     tail = members[0]
                     head = members[1]
-                    self._edge[idx] = {"in": set(tail), "out": set(head)}
+                    tail_set, head_set = set(tail), set(head)
                 except TypeError as e:
                     raise XGIError("Invalid ebunch format") from e
+                if None in tail_set or None in head_set:
+                    raise XGIError("None cannot be a node or edge")
+                self._edge[idx] = {"in": tail_set, "out": head_set}
 
                 for node in tail:
                     if node not in self._node:
@@ -806,6 +816,8 @@ class DiHypergraph:
         else:
             raise XGIError("Invalid direction!")
 
+        if edge is None or node is None:
+            raise XGIError("None cannot be a node or edge")
         if edge not in self._edge:
             self._edge[edge] = {"in": set(), "out": set()}
             self._edge_attr[edge] = {}
@@ -912,6 +924,8 @@ class DiHypergraph:
         else:
             raise XGIError("Invalid direction!")
 
+        if edge is None or node is None:
+            raise XGIError("None cannot be a node or edge")
         if edge not in self._edge:
             raise XGIError(f"Edge {edge} not in the hypergraph")
         if node not in self._node:
